@@ -2,26 +2,19 @@ use redb::*;
 use vcore::backend::RecBackend;
 const T: TableDefinition<u64, u64> = TableDefinition::new("t0");
 fn main() {
-    for with_data in [false, true] {
-        let b = RecBackend::new(false);
-        let bld = Builder::new();
-        let db = bld.create_with_backend(b.clone()).unwrap();
-        if with_data {
-            let w = db.begin_write().unwrap();
-            { let mut t = w.open_table(T).unwrap(); for i in 0..100 { t.insert(i, i).unwrap(); } }
-            w.commit().unwrap();
-        }
-        drop(db);
-        let l0 = b.lock().live.len();
-        let mut db = bld.create_with_backend(b.reopen_handle()).unwrap();
-        let r = db.compact();
-        let l1 = b.lock().live.len();
-        drop(db);
-        let l2 = b.lock().live.len();
-        let mut db = bld.create_with_backend(b.reopen_handle()).unwrap();
-        let r2 = db.compact();
-        drop(db);
-        let l3 = b.lock().live.len();
-        println!("default builder with_data={with_data}: at rest {l0}; compact -> {r:?}; in flight {l1}; at rest {l2}; second compact {r2:?} at rest {l3}");
-    }
+    let b = RecBackend::new(false);
+    let mut bld = Builder::new();
+    bld.verif_set_page_size(512); bld.verif_set_region_size(65536);
+    let db = bld.create_with_backend(b.clone()).unwrap();
+    let w = db.begin_write().unwrap();
+    { let mut t = w.open_table(T).unwrap(); for i in 0..100 { t.insert(i, i).unwrap(); } }
+    w.commit().unwrap();
+    let s = db.verif_snapshot();
+    println!("regions {} first allocated {:?} data_root {:?} sys {:?}", s.regions.len(), s.regions.iter().map(|r| r.allocated.len()).collect::<Vec<_>>(), s.data_root, s.system_root);
+    let p = db.verif_peek_page(s.data_root.unwrap().page).unwrap();
+    println!("root page type {} len {}", p[0], p.len());
+    let m = redb::verif::Mem::new(512, 65536).unwrap();
+    let a = m.allocate(512, false).unwrap(); let b2 = m.allocate(2000, true).unwrap();
+    println!("{a:?} {b2:?} regions {}", m.snapshot().regions.len());
+    m.free(a);
 }
